@@ -4,6 +4,7 @@ import (
 	"bytes"
 	"encoding/xml"
 	"fmt"
+	"strings"
 
 	"wzverif/internal/canon"
 )
@@ -18,9 +19,30 @@ import (
 //	default-ns1  elements unprefixed, attributes ns1:      xmlns + xmlns:ns1
 var nsSchemes = []string{"ns0", "default", "default-ns1"}
 
-func reprefix(data []byte, scheme string) ([]byte, error) {
+func reprefix(data []byte, scheme string) ([]byte, error) { return reserialise(data, scheme, "") }
+
+// Layouts of a re-serialised styles part (the infoset of the definitions is unchanged):
+//
+//	""        everything on one line after the XML declaration (ElementTree)
+//	pretty    one element per line, two-space indentation (lxml pretty_print)
+//	dressed   tab indentation, a single-quoted XML declaration, a comment before every style definition and a
+//	          w:latentStyles block after w:docDefaults (as Word writes one)
+var stylesForms = []string{"", "pretty", "dressed"}
+
+// restyle re-serialises the styles part of a start package with the namespace scheme ns ("" = prefix w) in layout form.
+func restyle(data []byte, ns, form string) ([]byte, error) {
+	if len(data) == 0 || (ns == "" && form == "") {
+		return data, nil
+	}
+	return reserialise(data, ns, form)
+}
+
+func reserialise(data []byte, scheme, form string) ([]byte, error) {
 	var elemP, attrP, decl string
 	switch scheme {
+	case "":
+		elemP, attrP = "w:", "w:"
+		decl = fmt.Sprintf(` xmlns:w="%s"`, canon.W)
 	case "ns0":
 		elemP, attrP = "ns0:", "ns0:"
 		decl = fmt.Sprintf(` xmlns:ns0="%s"`, canon.W)
@@ -33,20 +55,45 @@ func reprefix(data []byte, scheme string) ([]byte, error) {
 	default:
 		return nil, fmt.Errorf("unknown namespace scheme %q", scheme)
 	}
+	indent, nl := "", ""
+	switch form {
+	case "":
+	case "pretty":
+		indent, nl = "  ", "\n"
+	case "dressed":
+		indent, nl = "\t", "\n"
+	default:
+		return nil, fmt.Errorf("unknown layout %q", form)
+	}
 	root, err := canon.Parse(data)
 	if err != nil {
 		return nil, err
 	}
 	var b bytes.Buffer
-	b.WriteString(`<?xml version="1.0" encoding="UTF-8" standalone="yes"?>` + "\n")
+	if form == "dressed" {
+		b.WriteString(`<?xml version='1.0' encoding='UTF-8'?>` + "\n")
+	} else {
+		b.WriteString(`<?xml version="1.0" encoding="UTF-8" standalone="yes"?>` + "\n")
+	}
 	var werr error
 	esc := func(s string) string {
 		var e bytes.Buffer
 		xml.EscapeText(&e, []byte(s))
 		return e.String()
 	}
-	var write func(n *canon.Node, top bool)
-	write = func(n *canon.Node, top bool) {
+	pad := func(depth int) {
+		for i := 0; i < depth && indent != ""; i++ {
+			b.WriteString(indent)
+		}
+	}
+	writeLatent := func() {
+		pad(1)
+		b.WriteString("<" + elemP + "latentStyles " + attrP + `defLockedState="0" ` + attrP + `defUIPriority="99" ` + attrP + `count="2"><` +
+			elemP + "lsdException " + attrP + `name="Normal" ` + attrP + `uiPriority="0" ` + attrP + `qFormat="1"/><` +
+			elemP + "lsdException " + attrP + `name="heading 1" ` + attrP + `uiPriority="9" ` + attrP + `qFormat="1"/></` + elemP + "latentStyles>" + nl)
+	}
+	var write func(n *canon.Node, depth int)
+	write = func(n *canon.Node, depth int) {
 		if n.Space != canon.W {
 			werr = fmt.Errorf("element {%s}%s is not in the main namespace", n.Space, n.Local)
 			return
@@ -55,8 +102,13 @@ func reprefix(data []byte, scheme string) ([]byte, error) {
 			werr = fmt.Errorf("mixed content in %s", n.Local)
 			return
 		}
+		if form == "dressed" && depth == 1 && n.Local == "style" {
+			pad(depth)
+			b.WriteString("<!-- " + strings.ReplaceAll(esc(n.A(canon.W, "styleId")), "--", "- -") + " -->" + nl)
+		}
+		pad(depth)
 		b.WriteString("<" + elemP + n.Local)
-		if top {
+		if depth == 0 {
 			b.WriteString(decl)
 		}
 		for _, a := range n.Attrs {
@@ -66,24 +118,44 @@ func reprefix(data []byte, scheme string) ([]byte, error) {
 			case canon.XML:
 				b.WriteString(" xml:" + a.Local + `="` + esc(a.Value) + `"`)
 			default:
+				if depth == 0 && a.Space == "http://schemas.openxmlformats.org/markup-compatibility/2006" && a.Local == "Ignorable" {
+					// the root's mc:Ignorable list names prefixes of extension namespaces that the re-serialised part
+					// does not declare any more (no element or attribute of the part is in one of them): left out
+					continue
+				}
 				werr = fmt.Errorf("attribute {%s}%s of %s", a.Space, a.Local, n.Local)
 				return
 			}
 		}
 		if len(n.Kids) == 0 && n.Text == "" {
-			b.WriteString("/>")
+			b.WriteString("/>" + nl)
 			return
 		}
 		b.WriteString(">")
-		b.WriteString(esc(n.Text))
-		for _, k := range n.Kids {
-			write(k, false)
+		if len(n.Kids) > 0 {
+			b.WriteString(nl)
 		}
-		b.WriteString("</" + elemP + n.Local + ">")
+		b.WriteString(esc(n.Text))
+		latent := false
+		for _, k := range n.Kids {
+			if form == "dressed" && depth == 0 && !latent && k.Local == "style" {
+				latent = true
+				writeLatent()
+			}
+			write(k, depth+1)
+			if form == "dressed" && depth == 0 && !latent && k.Local == "docDefaults" {
+				latent = true
+				writeLatent()
+			}
+		}
+		if len(n.Kids) > 0 {
+			pad(depth)
+		}
+		b.WriteString("</" + elemP + n.Local + ">" + nl)
 	}
-	write(root, true)
+	write(root, 0)
 	if werr != nil {
 		return nil, werr
 	}
-	return b.Bytes(), nil
+	return bytes.TrimRight(b.Bytes(), "\n"), nil
 }
